@@ -98,6 +98,15 @@ def prog_case(rng):
         return case
     if "icache" not in case and rng.random() < 0.15:
         case["ibase"] = rng.choice([0x40, 0x100, 0x404, 0x1000, 0x2F00])
+        if "dcache" not in case and case["via"] != "asm" and rng.random() < 0.4:
+            # ... with an instruction cache in front of it, the range ending one to three words behind the program (so
+            # that the last block straddles the end of the range)
+            from .cache import rand_cfg
+
+            ic = rand_cfg(rng, small=True)
+            case["icache"] = {x: ic[x] for x in ("ib", "bb", "assoc", "policy", "pen")}
+            case["icache"]["bb"] = max(1, case["icache"]["bb"])
+            case["isize"] = 4 * (len(case["prog"]) + rng.choice([1, 2, 3, 5]))
     return case
 
 
@@ -208,7 +217,9 @@ def run_case(prop, case, res):
         res.count("prog_cases_on_non_wrapping_data_memory")
     elif ibase:
         # instruction memory with another address range: program and start of execution move with it
-        sim = make_riscv_at("single", ibase, dcache=case.get("dcache"))
+        sim = make_riscv_at("single", ibase, dcache=case.get("dcache"), icache=case.get("icache"), size=case.get("isize", 0x3000))
+        if case.get("icache"):
+            res.count("prog_cases_with_icache_over_short_custom_range")
         res.count("prog_cases_at_other_instruction_base")
     else:
         sim = make_riscv("single", dcache=case.get("dcache"), icache=case.get("icache"))
